@@ -5,6 +5,7 @@
 import ClarabelProofs.Lemmas.InfoConv
 import ClarabelProofs.Lemmas.InfoCert
 import ClarabelModel.Unscale
+import ClarabelProofs.Lemmas.ScalarInst
 import Mathlib.Tactic.NormNum
 import Mathlib.Data.Fin.VecNotation
 import Mathlib.Algebra.BigOperators.Fin
@@ -167,6 +168,151 @@ theorem cert_is_kappa_normalised (v : Residuals.Vars β) (eq : Equil β) :
 
 end structural
 
+
+section rollback
+variable {α : Type} [Add α] [Sub α] [Mul α] [Div α] [Neg α] [OfNat α 0] [OfNat α 1] [OfNat α 2]
+  [OfNat α 100] [OfNat α 1000] [LT α] [DecidableLT α] [LE α] [DecidableLE α] [FloatLike α]
+
+/-- the un-scaled variables `Solution.post_process` hands back -/
+theorem post_process_vars {β : Type} [Mul β] [Div β] [OfNat β 0] [OfNat β 1]
+    (sol : Unscale.Solution β) (eq : Equil β) (pm : Option (Unscale.PresolveMap β))
+    (v : Residuals.Vars β) (i : InfoS β) (r : Unscale.Solution β × Residuals.Vars β)
+    (h : Unscale.postProcess sol eq pm v i = .ok r) :
+    r.2 = Unscale.unscale v eq i.status.isInfeasible ∧ r.1.status = i.status := by
+  unfold Unscale.postProcess at h
+  cases pm with
+  | some p =>
+    simp only [bind, Except.bind, pure, Except.pure] at h
+    split at h
+    · cases h
+    · rename_i sol' hs
+      unfold Unscale.reversePresolve at hs
+      simp only [bind, Except.bind, pure, Except.pure] at hs
+      split at hs
+      · cases hs
+      · split at hs
+        · cases hs
+        · cases hs; cases h; exact ⟨rfl, rfl⟩
+  | none =>
+    simp only [bind, Except.bind, pure, Except.pure] at h
+    repeat' split at h
+    all_goals first | (cases h; exact ⟨rfl, rfl⟩) | cases h
+
+/-- **[S] `C02.rollback_consistency` — paths WITHOUT rollback** (any scalar type).  The
+infeasibility decision and the returned certificate come from ONE iterate: let `info'` be
+what `Info.update` assigns for the iterate `v` with residuals `r` (status not yet an
+infeasibility status), let the convergence check — `full` tolerances in the loop, `reduced`
+ones in `post_process` — run on `info'` with `r.dot_bz`, `r.dot_qx`, and let
+`Solution.post_process` run on the same `v`.  If the verdict is (Almost)PrimalInfeasible
+then the test that fired is `r.dot_bz < −tol_abs` and
+`‖D⁻¹·r.rx_inf‖/c / max(1,‖E·v.z‖/c) < −tol_rel·r.dot_bz` — quantities of that very `v`,
+`r` — and the returned certificate is `unscale v` by `v.κ`; likewise for (Almost)Dual. -/
+theorem rollback_consistency_no_rollback (almost : Bool) (i i' : InfoS α) (eq : Equil α)
+    (normq normb : α) (v : Residuals.Vars α) (r : Residuals.Resid α) (s : Settings α)
+    (hup : Info.update i eq normq normb v r = .ok i')
+    (h0 : i'.status.isInfeasible = false)
+    (sol : Unscale.Solution α) (pm : Option (Unscale.PresolveMap α))
+    (out : Unscale.Solution α × Residuals.Vars α)
+    (hpost : Unscale.postProcess sol eq pm v
+      (if almost then checkConvergenceAlmost i' r.dot_bz r.dot_qx s
+       else checkConvergenceFull i' r.dot_bz r.dot_qx s) = .ok out) :
+    let t := if almost then s.reduced else s.full
+    let cinv := 1 / eq.c
+    let nz := Vec.normScaled v.z eq.e * cinv
+    let nx := Vec.normScaled v.x eq.d
+    let ns := Vec.normScaled v.s eq.einv
+    (out.1.status = (if almost then .almostPrimalInfeasible else .primalInfeasible) →
+        r.dot_bz < -t.infeas_abs
+        ∧ (Vec.normScaled r.rx_inf eq.dinv * cinv) / fmax 1 nz < -t.infeas_rel * r.dot_bz
+        ∧ v.κ * (1 / v.τ) > (1 / t.ktratio) * 1000
+        ∧ out.2 = Unscale.unscale v eq true)
+    ∧ (out.1.status = (if almost then .almostDualInfeasible else .dualInfeasible) →
+        r.dot_qx < -t.infeas_abs
+        ∧ fmax (Vec.normScaled r.Px eq.dinv / fmax 1 nx)
+               (Vec.normScaled r.rz_inf eq.einv / fmax 1 (nx + ns)) < -t.infeas_rel * r.dot_qx
+        ∧ v.κ * (1 / v.τ) > (1 / t.ktratio) * 1000
+        ∧ out.2 = Unscale.unscale v eq true) := by
+  intro t cinv nz nx ns
+  have hf := Info.update_fields i i' eq normq normb v r hup
+  simp only at hf
+  obtain ⟨_, _, hpi, hdi, _, _, _, _, hkt, _, _⟩ := hf
+  obtain ⟨hv, hst⟩ := post_process_vars sol eq pm v _ out hpost
+  have hne2 : ∀ st : SolverStatus, st.isInfeasible = true → i'.status ≠ st := by
+    intro st h1 h2; rw [h2] at h0; rw [h0] at h1; cases h1
+  cases almost with
+  | false =>
+    simp only [Bool.false_eq_true, ↓reduceIte] at hpost hv hst ⊢
+    constructor
+    · intro h
+      rw [hst] at h
+      obtain ⟨a, b, c⟩ := conv_pinf i' _ _ s.full .solved .primalInfeasible .dualInfeasible h
+        (hne2 _ rfl) (by decide) (by decide)
+      rw [hpi] at c; rw [hkt] at a
+      refine ⟨b, c, a, ?_⟩
+      rw [hv, h]; rfl
+    · intro h
+      rw [hst] at h
+      obtain ⟨a, b, c⟩ := conv_dinf i' _ _ s.full .solved .primalInfeasible .dualInfeasible h
+        (hne2 _ rfl) (by decide) (by decide)
+      rw [hdi] at c; rw [hkt] at a
+      refine ⟨b, c, a, ?_⟩
+      rw [hv, h]; rfl
+  | true =>
+    simp only [↓reduceIte] at hpost hv hst ⊢
+    constructor
+    · intro h
+      rw [hst] at h
+      obtain ⟨a, b, c⟩ := conv_pinf i' _ _ s.reduced .almostSolved .almostPrimalInfeasible
+        .almostDualInfeasible h (hne2 _ rfl) (by decide) (by decide)
+      rw [hpi] at c; rw [hkt] at a
+      refine ⟨b, c, a, ?_⟩
+      rw [hv, h]; rfl
+    · intro h
+      rw [hst] at h
+      obtain ⟨a, b, c⟩ := conv_dinf i' _ _ s.reduced .almostSolved .almostPrimalInfeasible
+        .almostDualInfeasible h (hne2 _ rfl) (by decide) (by decide)
+      rw [hdi] at c; rw [hkt] at a
+      refine ⟨b, c, a, ?_⟩
+      rw [hv, h]; rfl
+
+/-- **[S] `C02.rollback_stale_fields` — the rollback path, stated precisely.**  After an
+insufficient-progress rollback (`reset_to_prev_iterate` on the info `j` of the DISCARDED
+iterate, the variables being replaced by the previous ones), `Info.post_process` decides
+`Almost*Infeasible` from `j.ktratio`, `j.res_primal_inf` / `j.res_dual_inf` and the
+`dot_bz` / `dot_qx` of the residual object — all still those of the discarded iterate —
+whereas cost, residual and gap figures (and the point that is returned) are the previous
+iterate's.  So on this path the certificate that is returned is NOT the one that was
+tested; the consistency theorem above does not extend to it (the oracle covers it). -/
+theorem rollback_stale_fields (j : InfoS α) (bz qx : α) (s : Settings α)
+    (h0 : j.status.isInfeasible = false) :
+    ((Info.postProcess (resetToPrev j) bz qx s).status = .almostPrimalInfeasible →
+        j.ktratio > (1 / s.reduced.ktratio) * 1000 ∧ bz < -s.reduced.infeas_abs
+        ∧ j.res_primal_inf < -s.reduced.infeas_rel * bz)
+    ∧ ((Info.postProcess (resetToPrev j) bz qx s).status = .almostDualInfeasible →
+        j.ktratio > (1 / s.reduced.ktratio) * 1000 ∧ qx < -s.reduced.infeas_abs
+        ∧ j.res_dual_inf < -s.reduced.infeas_rel * qx)
+    ∧ (resetToPrev j).cost_primal = j.prev_cost_primal
+    ∧ (resetToPrev j).res_primal = j.prev_res_primal
+    ∧ (resetToPrev j).res_dual = j.prev_res_dual := by
+  have hst : (resetToPrev j).status = j.status := rfl
+  have hne : ∀ st : SolverStatus, st.isInfeasible = true → (resetToPrev j).status ≠ st := by
+    intro st h1 h2; rw [hst] at h2; rw [h2] at h0; rw [h0] at h1; cases h1
+  refine ⟨?_, ?_, rfl, rfl, rfl⟩
+  · intro h
+    unfold Info.postProcess at h
+    split at h
+    · exact conv_pinf (resetToPrev j) bz qx s.reduced .almostSolved .almostPrimalInfeasible
+        .almostDualInfeasible h (hne _ rfl) (by decide) (by decide)
+    · exact absurd h (hne _ rfl)
+  · intro h
+    unfold Info.postProcess at h
+    split at h
+    · exact conv_dinf (resetToPrev j) bz qx s.reduced .almostSolved .almostPrimalInfeasible
+        .almostDualInfeasible h (hne _ rfl) (by decide) (by decide)
+    · exact absurd h (hne _ rfl)
+
+end rollback
+
 /-! ### non-vacuity -/
 
 /-- witness: a 1×1 problem `0·x + s = −1, s ≥ 0` with `ẑ = 1`, trivial scaling -/
@@ -195,6 +341,52 @@ example : isPrimalInfeasible
   rw [hN, hb]
   norm_num
 
+
+/-- witness data for `rollback_consistency_no_rollback` -/
+noncomputable def rbInfo : InfoS ℝ :=
+  { cost_primal := 0, cost_dual := 0, res_primal := 0, res_dual := 0, res_primal_inf := 0,
+    res_dual_inf := 0, gap_abs := 0, gap_rel := 0, ktratio := 0, prev_cost_primal := 0,
+    prev_cost_dual := 0, prev_res_primal := 0, prev_res_dual := 0, prev_gap_abs := 0,
+    prev_gap_rel := 0, iterations := 1, status := .unsolved }
+noncomputable def rbTols : Tols ℝ :=
+  { gap_abs := 1, gap_rel := 1, feas := 1, infeas_abs := 1/2, infeas_rel := 1, ktratio := 1 }
+noncomputable def rbVars : Residuals.Vars ℝ := { x := #[], s := #[], z := #[], τ := 1, κ := 2000 }
+noncomputable def rbRes : Residuals.Resid ℝ :=
+  { rx := #[], rz := #[], rτ := 0, rx_inf := #[], rz_inf := #[], dot_qx := 0, dot_bz := -1,
+    dot_sz := 0, dot_xPx := 0, Px := #[] }
+noncomputable def rbEq : Equil ℝ := { d := #[], dinv := #[], e := #[], einv := #[], c := 1 }
+
+theorem rb_post_ok (j : InfoS ℝ) :
+    ∃ out, Unscale.postProcess (Unscale.Solution.new 0 0) rbEq none rbVars j = .ok out := by
+  unfold Unscale.postProcess
+  simp [Unscale.copyFrom, Unscale.unscale, Unscale.hadamardInPlace, Vec.scale, rbVars, rbEq,
+    Unscale.Solution.new, bind, Except.bind, pure, Except.pure]
+
+/-- the hypotheses of `rollback_consistency_no_rollback` are satisfiable and its first
+implication is not vacuous: an iterate (empty vectors, κ/τ = 2000, b̂ᵀẑ = −1) on which
+`Info.update` succeeds, the full check says PrimalInfeasible and `post_process` succeeds -/
+example : ∃ i' out,
+    Info.update rbInfo rbEq 0 0 rbVars rbRes = .ok i'
+    ∧ i'.status.isInfeasible = false
+    ∧ Unscale.postProcess (Unscale.Solution.new 0 0) rbEq none rbVars
+        (checkConvergenceFull i' rbRes.dot_bz rbRes.dot_qx { full := rbTols, reduced := rbTols, max_iter := 9 })
+        = .ok out
+    ∧ out.1.status = .primalInfeasible := by
+  obtain ⟨i', hi⟩ : ∃ i', Info.update rbInfo rbEq 0 0 rbVars rbRes = .ok i' := ⟨_, rfl⟩
+  obtain ⟨out, ho⟩ := rb_post_ok
+    (checkConvergenceFull i' rbRes.dot_bz rbRes.dot_qx { full := rbTols, reduced := rbTols, max_iter := 9 })
+  have hf := Info.update_fields _ _ _ _ _ _ _ hi
+  simp only at hf
+  obtain ⟨_, _, hpi, _, hrp, hrd, hga, hgr, hkt, hst, _⟩ := hf
+  have hst' : i'.status = .unsolved := hst
+  refine ⟨i', out, hi, by rw [hst']; rfl, ho, ?_⟩
+  rw [(post_process_vars _ _ _ _ _ _ ho).2]
+  have hk : i'.ktratio = 2000 := by rw [hkt]; norm_num [rbVars]
+  have hp : i'.res_primal_inf = 0 := by
+    rw [hpi]; simp [Vec.normScaled, Vec.sumsqScaled, rbRes, rbEq]
+  unfold checkConvergenceFull checkConvergence isSolved isPrimalInfeasible
+  rw [hk, hp]
+  norm_num [rbTols, rbRes]
 
 /-- witness `info` over `ℕ` (structural theorems hold for every scalar type) -/
 def exInfoNat : InfoS Nat :=
